@@ -27,8 +27,7 @@ PARTIAL = ["float ties: when f*total coincides with a prefix sum up to rounding 
            "directions is only checked to lie in the admissible band (at most one apart); the theorems are exact over "
            "ordered fields, the rounding of cumsum / f*total in float64 is modelled away",
            "spectra without any positive eigenvalue are outside the property (min(r, 0) = 0 contradicts 'at least one "
-           "is kept'); the model mirrors the code there (integer request: everything is returned; fractional request: "
-           "IndexError) and the correspondence still compares them",
+           "is kept'); code and model refuse them with a ValueError (since the fix), which oracle and correspondence check",
            "reproduces_eigenpairs assumes the eigh contract (orthonormal V, A = V diag s V^T); the harness checks the "
            "contract's consequences numerically (residuals) on every case"]
 ASSUMPTIONS = ["jax.numpy.linalg.eigh returns ascending eigenvalues with orthonormal eigenvectors (contract; residuals "
@@ -216,6 +215,13 @@ def case_eig(ctx, res, p):
     # ---------------- independent oracle
     if b is None:
         res.count("outside_property(no positive eigenvalue or request < 1)")
+        if not np.any(s_hat > 0):
+            # nothing can be retained: the routine refuses (it used to return every non-positive pair for an integer
+            # request and to die with an IndexError for a fraction)
+            res.count("no_positive_eigenvalue_refusal_checked")
+            if out != "ValueError":
+                res.oracle_fail("a matrix without a positive eigenvalue is not refused with a ValueError", p,
+                                detail={"outcome": out}, signature="C10:no-positive-not-refused")
     else:
         lo, hi = b
         res.count("band_width=%d" % (hi - lo))
@@ -517,7 +523,7 @@ def run_case(ctx, res, p):
 
 # ------------------------------------------------------------------ generators
 
-FAMILIES = ["fast", "slow", "ties", "clusters", "tiny", "zero", "negative", "dyadic"]
+FAMILIES = ["fast", "slow", "ties", "clusters", "tiny", "zero", "negative", "dyadic", "nonpositive"]
 
 
 def gen_spectrum(rng, n, family):
@@ -545,6 +551,9 @@ def gen_spectrum(rng, n, family):
         k = int(rng.integers(1, n)) if n > 1 else 0
         if k:
             s[n - k:] = -a * 10.0 ** rng.uniform(-14, -6, size=k)
+    elif family == "nonpositive":
+        # nothing can be retained: the routine must refuse
+        s = -a * 10.0 ** rng.uniform(-14, -2, size=n) * (rng.random(size=n) < 0.6)
     elif family == "dyadic":
         if rng.random() < 0.5:
             # positive integer parts summing to a power of two: every prefix fraction is a dyadic rational, so
@@ -719,7 +728,7 @@ CLAIM = {
             "coercion itself is C20.float_or_int_keeps_integers / C15.numpy_integer_rank_is_integer_rank).",
     "note": "Exact statement over ordered fields; float64 rounding of cumsum and f*total is modelled away (ties judged "
             "within one direction). 'total' is the sum of the positive eigenvalues (= trace for PSD input). Spectra with "
-            "no positive eigenvalue are outside the property (model mirrors the code: IndexError / everything kept). "
+            "no positive eigenvalue are outside the property (code and model refuse them with a ValueError). "
             "eigh/qr enter as contracts. Correspondence is sampled differential testing.",
     "technique": "Lean 4 proof (induction over lists, ordered-field algebra, finite sums) + differential correspondence "
                  "over exact rationals and doubles + exact-arithmetic oracle",
